@@ -60,11 +60,13 @@ CTORS = {
 }
 for _m in ["GET", "HEAD", "POST", "PUT", "DELETE", "CONNECT", "OPTIONS", "TRACE", "PATCH"]:
     CTORS[("Method", _m)] = (_m, None)
+CTORS.update({("Phase", "SendLine"): ("PLine", None), ("Phase", "SendHeaders"): ("PHeaders", "usize"), ("Phase", "SendBody"): ("PBody", None),
+              ("Phase", "RecvResponse"): ("PRecvResponse", None), ("Phase", "RecvBody"): ("PRecvBody", None)})
 ENUM_EQB = {"Dechunker": "dechunker_eqb", "Method": "method_eqb"}
 STRUCTS = {"Pos": ["index_in", "index_out"]}
 # records flattened into their fields when they are the `self` of a method: impl type -> [(field, rust type)]
 SELF_RECORDS = {"BodyWriter": [("mode", "SenderMode"), ("ended", "bool")]}
-COQ_TYPE = {"Method": "method", "Dechunker": "dechunker", "BodyReader": "reader", "SenderMode": "smode", "bool": "bool", "usize": "N", "u64": "N"}
+COQ_TYPE = {"Phase": "phase", "Method": "method", "Dechunker": "dechunker", "BodyReader": "reader", "SenderMode": "smode", "bool": "bool", "usize": "N", "u64": "N"}
 
 
 def parse_all(toks, what="expr"):
@@ -363,7 +365,7 @@ class Tr(object):
             return self.pure_call(e, env)
         if k == "mcall":
             return self.pure_mcall(e, env)
-        if k in ("try", "return", "break", "while", "loop"):
+        if k in ("try", "return", "break", "continue", "while", "loop", "for"):
             raise Impure()
         raise Unsupported("expression %s" % k)
 
@@ -517,6 +519,8 @@ class Tr(object):
             return "(N.%s %s %s)" % (name, self.pure(recv, env), self.pure(args[0], env))
         if name == "saturating_sub" and len(args) == 1:
             return "(N.sub %s %s)" % (self.pure(recv, env), self.pure(args[0], env))
+        if name == "skip" and len(args) == 1:
+            return "(drop %s %s)" % (self.pure(args[0], env), self.pure(recv, env))
         if name == "get" and len(args) == 1:
             return "(get_at %s %s)" % (self.pure(recv, env), self.pure(args[0], env))
         if name == "unwrap_or" and len(args) == 1:
@@ -648,8 +652,12 @@ class Tr(object):
             return self.tail(e[1], env)
         if kd == "break":
             if self.break_k is None:
-                raise Unsupported("break outside of a loop")
+                raise Unsupported("break outside of a loop (or in a loop that is the function's last statement)")
             return self.break_k(env)
+        if kd == "continue":
+            if getattr(self, "continue_k", None) is None:
+                raise Unsupported("continue outside of a loop")
+            return self.continue_k(env)
         if kd == "macro":
             if e[1] == "unreachable":
                 return 'Panic "%s: unreachable!() in %s"' % (self.cfg["file"], self.cfg["rust"])
@@ -915,6 +923,11 @@ class Tr(object):
             x = s[1]
             while x[0] == "try":
                 x = x[1]
+            if x[0] == "call" and x[1] == ("path", ["Ok"]) and x[2] == [("tuple", [])]:
+                continue
+            if x[0] == "if" and x[3] is None:
+                pieces.append("(if %s then %s else [])" % (self.pure(x[1], env), self.write_pieces(x[2], wname, env)))
+                continue
             if x[0] == "mcall" and x[2] == "write_all" and x[1] == ("path", [wname]):
                 pieces.append(self.pure(x[3][0], env))
             elif x[0] == "macro" and x[1] == "write":
@@ -944,7 +957,9 @@ class Tr(object):
                 spec = fmt[i + 1:j]
                 flush()
                 a = self.pure(args.pop(0), env)
-                if spec in (":x", ":0x?", ":x?"):
+                if self.cfg.get("format_bytes") and spec in ("", ":?"):
+                    out.append(a)          # the argument is a byte string already rendered by the caller (Display / Debug of http types)
+                elif spec in (":x", ":0x?", ":x?"):
                     out.append("(hex_of %s)" % a)
                 elif spec == "":
                     out.append("(dec_of %s)" % a)
@@ -979,6 +994,8 @@ class Tr(object):
         """ss then the block's value (tail, or tt) handed to k"""
         if not ss:
             if tail is None:
+                if tail_mode:
+                    return self.tail(None, env)
                 return k("tt", env)
             if tail_mode:
                 return self.tail(tail, env)
@@ -997,9 +1014,13 @@ class Tr(object):
             if e[0] == "macro" and e[1] == "assert":
                 c = parse_all(split_macro_args(e[2])[0])
                 return '(if %s then %s else Panic "%s: assert! in %s")' % (self.pure(c, env), nxt(env), self.cfg["file"], self.cfg["rust"])
+            if e[0] == "loop" and not rest and tail is None and tail_mode:
+                return self.loop(e, env, None)
             if e[0] in ("loop", "while"):
                 return self.loop(e, env, nxt)
             if e[0] == "for":
+                if self.info.kind == "res" and self.state_names(env):
+                    return self.for_loop_state(e, env, nxt)
                 return self.for_loop(e, env, nxt)
             if e[0] == "if" and e[3] is None and self.simple_assign_block(e[2]):
                 # `if c { x = ..; y += ..; }`: the assigned variables are merged instead of duplicating the continuation
@@ -1180,13 +1201,16 @@ class Tr(object):
         st_tuple = self.tup(state)
         rec = "%s fuel' %s" % (lname, " ".join(captured + state))
         saved = self.break_k
-        self.break_k = lambda env2: "Ok %s" % st_tuple
+        saved_c = getattr(self, "continue_k", None)
+        self.break_k = (lambda env2: "Ok %s" % st_tuple) if nxt is not None else None
+        self.continue_k = lambda env2: rec
         if e[0] == "loop":
             inner = self.stmts(body[1], body[2], env, lambda v, env2: rec)
         else:
             inner = self.cps(e[1], env, lambda c, env2: "(if %s then %s else Ok %s)" % (
                 c, self.stmts(body[1], body[2], env2, lambda v, env3: rec), st_tuple))
         self.break_k = saved
+        self.continue_k = saved_c
         oof = 'Panic "%s"' % lc["panic"] if "panic" in lc else "Ok %s" % st_tuple
         def typed(n):
             t = self.types.get(n)
@@ -1197,6 +1221,9 @@ class Tr(object):
             return "(%s : %s)" % (n, t) if t else n
         self.aux.append("Fixpoint %s (fuel : nat) %s {struct fuel} :=\n  match fuel with\n  | O => %s\n  | S fuel' =>\n  %s\n  end." % (
             lname, " ".join(typed(n) for n in captured + state), oof, inner))
+        if nxt is None:
+            # the loop is the function's last statement: every exit is a `return`, the loop function yields the function's result
+            return "%s (%s)%%nat %s" % (lname, lc["fuel"], " ".join(captured + state))
         return "bind (%s (%s)%%nat %s) (fun '%s => %s)" % (lname, lc["fuel"], " ".join(captured + state), st_tuple, nxt(env))
 
     def for_loop(self, e, env, nxt):
@@ -1230,6 +1257,37 @@ class Tr(object):
         self.aux.append("Fixpoint %s for_list %s {struct for_list} :=\n  match for_list with\n  | nil => %s\n  | cons %s for_rest =>\n  %s\n  end." % (
             lname, " ".join(typed(n) for n in captured), after, pt, body.replace("@@CONTINUE@@", rec)))
         return "%s %s %s" % (lname, lst, " ".join(captured))
+
+    def for_loop_state(self, e, env, nxt):
+        """`for PAT in LIST { .. }` with mutable state, `break` and `continue`, in a function of the result monad: a structurally
+        recursive function over the list that threads the state (no fuel needed)."""
+        self.loop_no += 1
+        lname = "%s_for%d" % (self.cfg["coq"], self.loop_no)
+        lst = self.iter_base(e[2], env) if e[2][0] == "mcall" else self.pure(e[2], env)
+        state = self.state_names(env)
+        st_tuple = self.tup(state)
+        pt, env2 = self.pat(e[1], env, None)
+        used = set()
+        self.idents(e[3], used)
+        captured = []
+        for n in env["__order__"]:
+            b = env[n]
+            shadowed = n in env2 and env2[n] is not b
+            if n in used and b.kind == "val" and not b.mutable and b.coq not in state and b.coq not in captured and not shadowed:
+                captured.append(b.coq)
+
+        def typed(n):
+            t = self.types.get(n)
+            return "(%s : %s)" % (n, t) if t else n
+        rec = "%s for_rest %s" % (lname, " ".join(captured + state))
+        saved, saved_c = self.break_k, getattr(self, "continue_k", None)
+        self.break_k = lambda env3: "Ok %s" % st_tuple
+        self.continue_k = lambda env3: rec
+        body = self.stmts(e[3][1], e[3][2], env2, lambda v, env3: rec)
+        self.break_k, self.continue_k = saved, saved_c
+        self.aux.append("Fixpoint %s for_list %s {struct for_list} :=\n  match for_list with\n  | nil => Ok %s\n  | cons %s for_rest =>\n  %s\n  end." % (
+            lname, " ".join(typed(n) for n in captured + state), st_tuple, pt, body))
+        return "bind (%s %s %s) (fun '%s => %s)" % (lname, lst, " ".join(captured + state), st_tuple, nxt(env))
 
     def assigned_in(self, e, name):
         if isinstance(e, tuple):
@@ -1635,6 +1693,30 @@ FLOWFUNCS = [
          params=[("writer", "recmut:BodyWriter", "", None), ("is_prelude", "val", "bool", None), ("is_body", "val", "bool", None),
                  ("prelude_result", "val", "res unit", "res"), ("input", "val", "bytes", None), ("w", "writer", "", None)],
          rust_ret="Result<(usize, usize), Error>"),
+    # src/client/call.rs: the resumable request-head writer. The request is represented by what the writer asks of it: the three pieces
+    # of the request line (Display of Method, the path, Debug of Version -- byte strings rendered by the caller) and the list of effective
+    # headers (name, value).  state.phase is the one field of BodyState it touches.
+    dict(coq="gen_write_send_line", file="src/client/call.rs", impl=None, rust="do_write_send_line", register=True, format_bytes=True,
+         subst=[(r"line\.0", "line_method"), (r"line\.1", "line_path"), (r"line\.2", "line_version")],
+         params=[("line_method", "val", "bytes", None), ("line_path", "val", "bytes", None), ("line_version", "val", "bytes", None), ("w", "writer", "", None)],
+         rust_ret="bool"),
+    dict(coq="gen_write_headers", file="src/client/call.rs", impl=None, rust="do_write_headers", register=True, format_bytes=True,
+         subst=[(r"for h in headers", "for h in headers")],
+         params=[("headers", "val", "list header", None), ("index", "mutval", "N", None), ("last_index", "val", "N", None), ("w", "writer", "", None)],
+         rust_ret="()"),
+    dict(coq="gen_write_prelude_part", file="src/client/call.rs", impl=None, rust="try_write_prelude_part", register=True,
+         subst=[(r"do_write_send_line\(request\.prelude\(\), w\)", "do_write_send_line(line_method, line_path, line_version, w)"),
+                (r"request\.headers_len\(\)", "headers.len()"), (r"request\.headers\(\)", "headers"), (r"state\.phase", "phase")],
+         params=[("line_method", "val", "bytes", None), ("line_path", "val", "bytes", None), ("line_version", "val", "bytes", None),
+                 ("headers", "val", "list header", None), ("phase", "mutval", "phase", "Phase"), ("w", "writer", "", None)],
+         rust_ret="bool"),
+    dict(coq="gen_write_prelude", file="src/client/call.rs", impl=None, rust="try_write_prelude", register=True,
+         subst=[(r"try_write_prelude_part\(request, state, w\)", "try_write_prelude_part(line_method, line_path, line_version, headers, &mut phase, w)"),
+                (r"state\.phase\.is_body\(\)", "phase.is_body()")],
+         params=[("line_method", "val", "bytes", None), ("line_path", "val", "bytes", None), ("line_version", "val", "bytes", None),
+                 ("headers", "val", "list header", None), ("phase", "mutval", "phase", "Phase"), ("w", "writer", "", None)],
+         methods={"is_body": "is_body"}, loops={1: dict(fuel="3", panic="model: try_write_prelude out of fuel")},
+         rust_ret="Result<(), Error>"),
     # src/client/amended.rs: the request analysis (what makes a request invalid, and the framing of its body); the two header accessors
     # are function parameters, version and method are values
     dict(coq="gen_analyze", file="src/client/amended.rs", impl=r"impl<Body>\s+AmendedRequest<Body>", rust="analyze",
@@ -1652,7 +1734,11 @@ FLOWFUNCS = [
 
 
 def translate_custom(text, cfg, known_all=None):
-    sig, body = find_fn_in_impl(text, cfg["impl"], cfg["rust"])
+    if cfg.get("impl"):
+        sig, body = find_fn_in_impl(text, cfg["impl"], cfg["rust"])
+    else:
+        from tools.rsparse import find_fn
+        sig, body = find_fn(text, cfg["rust"], cfg.get("nth", 1))
     for rx, rep in cfg["subst"]:
         body, n = re.subn(rx, rep, body)
         if n == 0:
@@ -1769,6 +1855,8 @@ def _generate(repo, base, force):
             code = translate_custom(open(os.path.join(repo, cfg["file"])).read(), cfg, known)
             chunks.append("(* %s :: fn %s (fields of self.inner as parameters) *)\n%s\n" % (cfg["file"], cfg["rust"], code))
             done.append(cfg["coq"])
+            if cfg.get("register"):
+                known[(None, cfg["rust"])] = FnInfo(cfg["coq"], [(n, k, t) for n, k, t, _ in cfg["params"]], "res", rust_ret=cfg["rust_ret"])
             newbase[cfg["coq"]] = {"code": code, "params": [], "kind": "flags", "rust_ret": "", "calls": []}
         except (Unsupported, Impure, OSError, ValueError, KeyError, IndexError, AttributeError, TypeError, RecursionError) as ex:
             failed[cfg["coq"]] = "%s: %s" % (type(ex).__name__, ex)
